@@ -1945,7 +1945,8 @@ def _run_axis(case):
 class C01(PropertyCheck):
     id = "C01"
     title = "Coordinate-map algebra agrees with function semantics"
-    lean_modules = ["NipyVerif.Props.C01", "NipyVerif.Props.C01B", "NipyVerif.Props.C01C", "NipyVerif.Props.C01D"]
+    lean_modules = ["NipyVerif.Props.C01", "NipyVerif.Props.C01B", "NipyVerif.Props.C01C", "NipyVerif.Props.C01D",
+                    "NipyVerif.Props.C01Source", "NipyVerif.Props.C01E", "NipyVerif.Props.C01W"]
     driver = "Drivers/C01.lean"
     rule = ("chain: a program = an initial AffineTransform (float64 / int64 / object dtype with Fractions or sympy "
             "symbols, domain and range dimension 1..5, ~6% malformed constructor arguments; 20% built through "
@@ -1967,7 +1968,16 @@ class C01(PropertyCheck):
             "input_axis_index, io_axis_indices. cs: CoordinateSystem construction / index / equality / similar_to / "
             "product / CoordSysMaker / API predicates / safe_dtype (whole table) / can_cast / shapes of point "
             "batches (scalar, 1-D, 2-D, 3-D, empty, wrong width, transposed). fix0: direct _fix0 probes. "
-            "Non-trivial = at least one operation or a class constructor; distinct by full JSON of the case")
+            "w4 (wave 4): orth_axes probed directly on matrices with entries on both sides of the tolerance "
+            "(2^-17 < 1e-5 < 2^-16, 2^-14 < 1e-4 < 2^-13, 1e-8), both allow_zero values, C / Fortran / "
+            "negative-stride / float32 / list presentations; reference/spaces.py: XYZSpace names / == / in, "
+            "known_space on objects lying in several listed spaces (CoordinateSystem, AffineTransform, general "
+            "CoordinateMap), get_world_cs for every kind of world id (system of right / wrong dimension, known / "
+            "unknown name, XYZSpace, CoordSysMaker, other) with ndim 0..8, extras as tuple or string, own space "
+            "lists; xyz_order with own name2xyz dicts or the module default (tied letters avoided: argsort order "
+            "of ties is unspecified); xyz_affine / is_xyz_affable on 2..5-D float / int64 maps (x, y, z shuffled "
+            "or missing, spatial axes fed by late inputs, shears, leaks of dropped axes of size 2^-27..1) and on "
+            "general maps. Non-trivial = at least one operation or a class constructor; distinct by full JSON of the case")
     assumptions = [
         "matrix inverse (numpy.linalg.inv / sympy Matrix.inv) is a parameter certified in the model: a candidate is "
         "accepted only if both products with the matrix are the identity; the implementation's floats are compared "
@@ -1978,7 +1988,9 @@ class C01(PropertyCheck):
         "generated program by the driver as `hyp`)",
         "nibabel.io_orientation is a parameter of drop_io_dim / axmap / input_axis_index / io_axis_indices (its result "
         "on the _fix0'd matrix is passed to the model); the drop theorems hold for every value of that parameter",
-        "orth_axes uses the tolerance 1e-5; drop_keeps_rest assumes that no entry of the matrix lies in (0, 1e-5] "
+        "the tolerance of orth_axes is regenerated from the source (TINY as exact binary64 value); the model uses "
+        "1/100000: `orth_tol_as_modelled` proves the two agree off the gap (1/100000, TINY] of width < 2^-69, "
+        "which holds no binary64 value other than TINY itself (not generated); drop_keeps_rest assumes that no entry of the matrix lies in (0, 1e-5] "
         "(`noTiny`; generated entries are 0 or >= 2^-20 only in the axis kind, >= 1/4 in programs)",
         "IEEE rounding in np.dot / npl.inv (inputs are small dyadic rationals, so products are exact; inverses are "
         "compared with tolerance); exactly singular float matrices whose singularity LAPACK does not see are not generated",
@@ -1990,6 +2002,11 @@ class C01(PropertyCheck):
         "against numpy in every run; complex entries inside an object matrix (refused by float()) are not generated",
         "general CoordinateMap equality is identity of Python function objects: == / similar_to / equivalent on "
         "general maps are oracle-only (a map equals itself; it is not equivalent to its non-trivial reordering)",
+        "nibabel.io_orientation is a parameter of xyz_affine too (its first three entries must be {0, 1, 2}); "
+        "np.argsort in xyz_order is modelled as a stable insertion sort (what numpy runs below 16 elements); "
+        "names mapped to one letter twice are not generated",
+        "numpy's own defaults (rtol=1e-5, atol=1e-8 of np.allclose) are not nipy source: the translator checks "
+        "that the calls pass no tolerance keywords",
         "coordinate systems with no coordinate at all compare equal whatever their dtype (numpy composite dtype); "
         "the model's composition gate uses structural equality, the two differ only for 0-dimensional systems, "
         "which are not generated as intermediate systems",
@@ -1997,18 +2014,35 @@ class C01(PropertyCheck):
     level_note = ("proved (Lean, all inputs): composition/chains, n-ary product, inverse, reorder/rename with named "
                   "tuples, shifts, append, function-level drop (`drop_keeps_rest`, for every io_orientation result), "
                   "append-then-drop, `prog_sound` (induction over programs of all eleven operations, affine maps) and "
-                  "`cprog_sound` (programs of compose/product/reorder/rename/inverse/shift on general CoordinateMaps "
-                  "= arbitrary functions with optional inverse, invariant `CMap.wf`), `equivalent_sound`, "
-                  "from_start_step/identity, dtype lattice (preorder, upper bound), call gate. hypotheses (explicit, "
-                  "evaluated per generated program by the driver as `hyp`): exact bottom row [0..0 1] of the initial "
-                  "and partner maps; dropped column exactly zero off the dropped row (`noTiny` for orth_axes). "
-                  "parameters: io_orientation result (theorems hold for every value), certified matrix inverse. "
-                  "oracle-only: equivalent_complete (exact reorderings are equivalent), ==/similar_to/equivalent on "
-                  "general maps, meaning of axmap/input_axis_index on one-to-one maps, CoordMapMaker.make_affine "
-                  "block structure (modelled and compared, no theorem), shape rule of point batches (modelled, "
-                  "oracle: batch = row-wise evaluation)")
+                  "`cprog_sound` (programs on general CoordinateMaps, invariant `CMap.wf`), `equivalent_sound` and "
+                  "(wave 4) `equivalent_complete` (every exact reordering is equivalent, dims >= 1), "
+                  "`make_affine_blocks`, `call_shape_rule` + `call_batch_from_source` (a batch is evaluated row by "
+                  "row), from_start_step/identity, dtype lattice, call gate, the CoordinateSystem algebra "
+                  "(`cs_index_spec`, `cs_eq_equivalence`, `cs_eq_is_structural`, `cs_product_spec`, `cs_new_spec`), "
+                  "spaces.py (`space_contains_iff`, `known_space_spec`, `get_world_cs_spec`, `xyz_order_spec`, "
+                  "`xyz_affine_spec`, `xyz_affine_refuses`). regenerated from source (Gen/C01Source, 20 `*_from_source` "
+                  "/ `*_as_modelled` theorems): np.dot order / gate / iteration order of _compose_affines, block "
+                  "layout of _product_affines (loop invariant: the slice assignments build `prodMat`), shift matrices "
+                  "and composition side, bottom-row and shape tests, from_params / from_start_step, _fix0, orth_axes "
+                  "and TINY, append_io_dim, make_affine, __call__, CoordinateSystem ==/similar_to (composite dtype), "
+                  "_checked_values gate, CoordSysMaker. hypotheses (explicit, evaluated per generated program by the "
+                  "driver as `hyp`): exact bottom row [0..0 1] of the initial and partner maps; dropped column "
+                  "exactly zero off the dropped row (`noTiny`); `xyz_affine_spec`'s function-level part assumes the "
+                  "dropped columns exactly zero (the code accepts 1e-8). parameters: io_orientation result (SVD-based "
+                  "polar factor: no exact model; theorems hold for every value), certified matrix inverse. "
+                  "oracle-only, with the reason: ==/similar_to/equivalent on *general* maps (identity of Python "
+                  "function objects - not a mathematical object in the model); meaning of axmap/input_axis_index on "
+                  "one-to-one maps (depends on io_orientation, a parameter); is_xyz_space / is_coordsys duck typing; "
+                  "the order np.argsort gives to tied axes (unspecified by numpy)")
 
     # ------------------------------------------------------------------
+    def translators(self):
+        """Gen/C01Source.lean: the matrix expressions and tests of coordinate_map.py as Lean terms
+        (Props/C01Source.lean proves they are the model's definitions)"""
+        from harness.core import REPO, TieBroken
+        from harness.props import c01_translate
+        return c01_translate.translate(REPO, TieBroken)
+
     def generate(self, rng, tier):
         n_chain, n_gen = (460, 160) if tier == "quick" else (9000, 2500)
         cases = []
@@ -2045,6 +2079,9 @@ class C01(PropertyCheck):
         # the whole can_cast / safe_dtype table, one row per case
         for a in X.NUM_CODES:
             cases.append({"kind": "cs", "sub": "safe", "row": a, "seed": rng.randrange(1 << 40)})
+        # wave 4: orth_axes around its tolerance, spaces.py (drawn last: earlier kinds keep their cases per seed)
+        from harness.props import c01_w4
+        cases += c01_w4.generate(rng, tier)
         return cases
 
     # ------------------------------------------------------------------
@@ -2087,6 +2124,9 @@ class C01(PropertyCheck):
             return _run_axis(case)
         if case["kind"] == "cs":
             return X.run_cs(case)
+        if case["kind"] == "w4":
+            from harness.props import c01_w4
+            return c01_w4.run(case)
         prog = self._prog_of(case)
         r = _execute(prog)
         if prog["init"].get("kind") == "sym" and r["impl"] and r["impl"][0].get("status") == "ok":
@@ -2227,7 +2267,7 @@ class C01(PropertyCheck):
 
     # ------------------------------------------------------------------
     def shrink(self, case):
-        if case.get("kind") in ("fix0", "eq", "axis", "cs"):
+        if case.get("kind") in ("fix0", "eq", "axis", "cs", "w4"):
             return
         try:
             prog = self._prog_of(case)
